@@ -591,3 +591,10 @@ def fact_bits_val(s: Str):
     decreases(len(s))
     if len(s) > 0:
         fact_bits_val(s[:len(s) - 1])
+
+
+def lv_be(acc, s) -> Int:
+    """big-endian value of the octets s continuing the accumulator acc"""
+    if len(s) == 0:
+        return acc
+    return lv_be(acc * 256 + s[0], s[1:])
